@@ -56,6 +56,8 @@ def check_C11(tier, seed):
     # (D) self-test: the mutant that only tests duplicates in the first group must be rejected
     m = run_mc("MC_BindGroupData.tla", "MC_BindGroupData_mut.cfg", workers=4, expect_violation=True)
     rep.add_selftest("MC_BindGroupData_mut(DupScope=first)", m)
+    # symbolic integers (Apalache): the same algorithm and contract for sequences of up to 6 declarations over ALL integer values
+    rep.mc.append(run_apalache("BGD_Symbolic.tla", "Contract", 8))
     exported = r.cases
     if not quick:
         pass
